@@ -14,7 +14,8 @@ from mc import core, hist
 
 PROP = 'C05'
 
-XPAL = [np.array([1., 2., 3., 4., 5., 6.]), np.array([6., 5., 1., 2., 4., 3.]), np.array([3., 3., 6., 1., 1., 5.])]
+XPAL = [np.array([1., 2., 3., 4., 5., 6.]), np.array([6., 5., 1., 2., 4., 3.]), np.array([3., 3., 6., 1., 1., 5.]),
+        np.array([1., np.nan, 3., 4., np.nan, 6.])]      # the last palette has NaNs (filtered by finite=True)
 YPAL = [np.array([6., 1., 5., 2., 4., 3.]), np.array([2., 2., 6., 5., 1., 4.])]
 CPAL = [np.array(['a', 'b', 'a', 'c', 'b', 'a']), np.array(['c', 'a', 'b', 'b', 'a', 'c'])]
 IMG = [np.array([[1., 1., 5.], [1., 5., 5.], [9., 1., 1.]]), np.array([[1., 5., 5.], [5., 5., 1.], [1., 1., 1.]])]
@@ -105,6 +106,9 @@ class World(object):
             guard('subset_mask', lambda: sub.to_mask())
             guard('subset_mask_view', lambda: sub.to_mask(view))
         guard('mean', lambda: np.round(t.compute_statistic('mean', att, subset_state=self.state), 9))
+        if self.kind != 'floodfill':
+            # a SECOND statistic through the same selection object (the first one must not have damaged anything)
+            guard('sum_y', lambda: np.round(t.compute_statistic('sum', self.cy, subset_state=self.state), 9))
         guard('hist', lambda: t.compute_histogram([att], range=[[0, 10]], bins=[5], subset_state=self.state))
         guard('derived', lambda: self.d[self.csum])
         if self.cu is not None:
@@ -403,6 +407,8 @@ def mask_set():
 
 DATA = [m_upd_x(1), m_refresh(6)]
 KINDS = {
+    'ineq_y': dict(s0=dict(thr=1.5), make=lambda w, s: w.cy > s['thr'],
+                   muts=[m_upd_x(3), m_upd_x(1), m_refresh(6), setter([], 'right', 3.5, 'thr')]),
     'ineq': dict(s0=dict(thr=2.5), make=mk_ineq, muts=DATA + [m_upd_x(2), m_refresh(4), setter([], 'right', 3.5, 'thr')]),
     'and': dict(s0=dict(thr=2.5, thr2=4.5), make=mk_and, muts=DATA + [setter(['state1'], 'right', 3.5, 'thr'),
                                           setter(['state2'], 'right', 2.5, 'thr2')]),
@@ -482,6 +488,27 @@ class Scenario(object):
         want = twin.observe()
         out = []
         bad = sorted(k for k in want if core.jdump(got.get(k)) != core.jdump(want[k]))
+        # the two statistics are also compared with plain numpy on the twin's mask and the known values, since a
+        # defect INSIDE compute_statistic would hit the live world and the twin alike
+        if self.kind != 'floodfill' and isinstance(want.get('mask'), list):
+            m = np.array(want['mask'], dtype=bool)
+            n = w.p['n']
+            for name, vals in (('mean', XPAL[w.p['x']][:n]), ('sum_y', YPAL[w.p['y']][:n])):
+                keep = m & np.isfinite(vals)
+                if name == 'mean':
+                    exp = round(float(np.mean(vals[keep])), 9) if keep.any() else None
+                else:
+                    exp = round(float(np.sum(vals[keep])), 9) if keep.any() else None
+                g = got.get(name)
+                if isinstance(g, float) and g != g:
+                    g = None
+                if exp is None:
+                    ok = g is None or g == 0.0
+                else:
+                    ok = isinstance(g, (int, float)) and abs(g - exp) < 1e-6
+                if not ok:
+                    out.append(('statistic-vs-numpy', {name: got.get(name)}, {name: exp},
+                                'kind=%s attached=%s params=%s' % (self.kind, self.attached, core.jdump(w.p))))
         if bad:
             out.append(('stale', {k: got.get(k) for k in bad}, {k: want[k] for k in bad},
                         'kind=%s attached=%s params=%s' % (self.kind, self.attached, core.jdump(w.p))))
